@@ -297,6 +297,42 @@ PROPS["C13"] = dict(
     level_note="Trusted: Lean kernel; hand-written Model/Buf.lean (checked against the real stack each run); simulated kernel. Fixed: stale queue after Remove PDR; Update FAR order dependence.",
 )
 
+
+_CONC_TB = ["Gen/Conc.lean regenerated from /repo by tools/extract (go/ssa): goroutine roots (go statements, time.AfterFunc callbacks, nl.Mux handlers, app start-up/shutdown), and per root the struct "
+            "fields read / written and the channel operations reachable without crossing a go statement (class-hierarchy call resolution inside the module; an over-approximation: reflection, unsafe, cgo not followed)",
+            "Spec/ConcRules.lean: the ownership rule, constructor list, hand-over channels and the listed exceptions; the waits-for graph construction"]
+PROPS["C17"] = dict(
+    module="UpfVerif.Props.C17",
+    streams=[dict(name="stop", args=["net=230"], race=True, shards=2, shards_thorough=8, seed_per_shard=True, timeout=900, timeout_thorough=3000)],
+    rule="T1: the regenerated access table (about 750 facts, 10 goroutine roots) evaluated by the kernel and again by the driver; S-stop under `go build -race`: notifications after the loop has ended "
+         "(deterministic), and stress runs, each a child process with its own race log: the real PfcpServer + Gtp5g driver + periodic server, 2-3 SMFs with unsynchronised valid traffic and duplicates, "
+         "2-4 report producers, 1-3 ms transaction timers with 1-3 retransmissions, injected periodic ticks, Stop at a random point (5-85 ms) followed by the driver's Close as pkg/app does; "
+         "observed: data-race reports, crashes, goroutines that do not end",
+    trusted_base=_CONC_TB + ["the Go race detector and runtime (supporting search, not proof)", "abstract stop-protocol transition system Props/C17 (notifyNew / loopEnd) as the reading of select-with-done"],
+    assumptions=["sound over-approximation of reachability by the extractor", "a serving UPF: Stop after the socket is bound (the start-up race on PfcpServer.conn is a listed exception)"],
+    level_text="PARTIAL (a data race is a run-time fact; the discipline that excludes it is what is proved). Kernel-checked (Props/C17.lean) on the REGENERATED facts: owner_table — every read/write of PfcpServer, "
+               "LocalNode, RemoteNode, Sess, PDRInfo, URRInfo, Tx/RxTransaction state reachable from any goroutine root other than the event loop is a hand-over channel, a constructor write, a read of a "
+               "constructor-only field or a listed exception (same for the periodic server and its goroutine); confined_no_conflict — confinement excludes every conflicting pair for every schedule; "
+               "producers_guarded / no_close_under_senders — every foreign send into the loop's queues is a select with the loop's done channel and no channel with foreign senders is closed; "
+               "stop_no_fault / stop_releases_producers — in the stop-protocol transition system no notification faults and none stays blocked once the loop has ended, for every interleaving "
+               "(old_protocol_faults: the pre-repair protocol has a faulting one); fifo_exactly_once. Tie: T1 each run + S-stop stress under the race detector.",
+    level_note="Trusted: Lean kernel; the extractor's call-graph over-approximation; the rule file; the race detector only supports the search. Fixed: send on closed channel after Stop (two sites). "
+               "Not covered: races inside go-nl / go-pfcp / logrus.",
+)
+PROPS["C18"] = dict(
+    module="UpfVerif.Props.C18",
+    streams=[dict(name="wedge", args=["net=240"], timeout=900, timeout_thorough=3000)],
+    rule="T1: the waits-for graph of blocking sends computed from the regenerated facts (10 edges over 10 roots); S-wedge: the running stack with 20 / 100 / 300 (thorough: up to 1200) sessions of 1-2 periodic URRs, "
+         "a tick of the common period injected inside the re-association that removes them all, data-plane latency 0-500 us on URR removal; liveness = a heartbeat answered after the burst",
+    trusted_base=_CONC_TB + ["two-process abstraction of loop and periodic server (Props/C18 Step) as the reading of the two bounded queues"],
+    assumptions=["the receiver of a channel is the only goroutine that can unblock its senders (no timeouts on the sends)"],
+    level_text="Kernel-checked (Props/C18.lean): acyclic_progress — with an acyclic waits-for relation some process can always move; on the REGENERATED topology graph_has_cycle / ticker_cycle exhibit the two "
+               "cycles (event loop <-> periodic server over evtCh/srCh; periodic server <-> ticker goroutine over stopCh/evtCh) and only_known_cycle proves the rest of the graph acyclic; "
+               "wedge_stuck / wedge_reachable — for ALL capacities E, R the two-process system reaches a state in which both are blocked for ever (schedule constructed from E and R); "
+               "loop_idle_releases — with the loop at its select a blocked periodic server is always released. THE PROPERTY DOES NOT HOLD OF THE CODE: recorded as known findings; the S-wedge scenario replays it.",
+    level_note="Known findings (not repaired: design change): perioLoopCycle, perioTickerCycle. The check alarms on any OTHER cycle, any other wedge, or when the facts stop matching.",
+)
+
 # properties not claimed yet (kept current; every property has a planned executable model, see DESIGN.md)
 NOT_APPLICABLE = {}
 for _i in range(1, 21):
